@@ -384,6 +384,53 @@ def spherical_formulas(rep):
               "arctan2(y, x))", node=fn)
 
 
+def spherical_inverse(rep):
+    """The spherical -> Cartesian map, by value: x = r sin(theta) cos(phi),
+    y = r sin(theta) sin(phi), z = r cos(theta), and nothing else (no clipping, rounding or
+    tolerance: the map is scale-free, so an absolute tolerance breaks the round trip for small
+    coordinates).  With spherical_formulas this is the written form of both directions; that
+    their composition is the identity is trigonometry and is not decided."""
+    from .. import symdiff
+    from ..tpoly import P
+    S = rep.sources
+    fn = S.function(FD, "FiniteDifference.spherical_to_cartesian")
+    names = [a.arg for a in fn.args.args[1:]]
+    rep.require(len(names) == 3, "spherical_to_cartesian: (r, theta, phi) expected")
+    it = FDPE(S, attrs={"verbose": False})
+    key = f"{FD}::FiniteDifference.spherical_to_cartesian"
+    try:
+        v = it.run("FiniteDifference.spherical_to_cartesian",
+                   [Sym(("param", n)) for n in names])
+    except (SymbolicBranch, NeedConfig) as e:
+        rep.violation("spherical-formulas", key + "::branch-free",
+                      f"the conversion depends on a test of its data or of the object: {e}",
+                      node=fn)
+        return
+    except (Unsupported, PathEnds) as e:
+        raise AnalysisError(f"spherical_to_cartesian: cannot be evaluated: {e}")
+    if isinstance(v, Sym) and v.t[0] in ("list", "tuple"):
+        v = None
+    if not isinstance(v, (tuple, list)) or len(v) != 3:
+        raise AnalysisError("spherical_to_cartesian: three returned values expected")
+
+    def atom(t):
+        if isinstance(t, tuple) and len(t) == 2 and t[0] == "param" and t[1] in names:
+            return ("r", "theta", "phi")[names.index(t[1])]
+        return None
+    r, th, ph = P.atom("r"), P.atom("theta"), P.atom("phi")
+    sin, cos = (lambda a: symdiff.fn_atom("sin", [a])), (lambda a: symdiff.fn_atom("cos", [a]))
+    want = {"x": r * sin(th) * cos(ph), "y": r * sin(th) * sin(ph), "z": r * cos(th)}
+    for nm, e in zip("xyz", v):
+        try:
+            got = term_to_P(to_term(e), atom)
+        except (AnalysisError, Unsupported) as exc:
+            got = None
+            why = str(exc)
+        rep.check(got is not None and got == want[nm], "spherical-formulas", f"{key}::{nm}",
+                  f"{nm} is {got!r}" if got is not None else f"{nm} is not a closed form of "
+                  f"(r, theta, phi): {why}"[:300], node=fn)
+
+
 def run(rep):
     rep.explanation = (
         "Structural decision of the count/position/extent/shape clauses of C16 for all "
@@ -404,6 +451,7 @@ def run(rep):
     axis_index_pairing(rep)
     trims(rep)
     spherical_formulas(rep)
+    spherical_inverse(rep)
     # ... for the lifetime of the object: no in-place sink reaches an attribute of the shared
     # FiniteDifference object outside its constructor (ownership analysis of C02, owner FD)
     from . import c02
